@@ -4,8 +4,9 @@
 import Props.C03
 import Proofs.Attestation
 import Props.C11
+import Props.C14
 namespace Webauthn.Props.C06
-open Webauthn Generated Webauthn.Props.C03
+open Webauthn Generated Webauthn.Props.C03 Webauthn.Base64
 
 /-- Authentication: the one signature query of an accepting run is over exactly
 authenticatorData ‖ SHA-256(clientDataJSON) — raw bytes of both — and it answered `valid`. -/
@@ -286,5 +287,120 @@ theorem bitflip_reg_u2f {W : World} {c c' : RegCred} {e : RegExpect} {r r' : Ver
   have h2 := List.append_inj h1.2 (by rw [l1, l2])
   have h3 := List.append_inj h2.2 (by rw [hlen, hlen])
   exact ⟨(hcol h3.1).symm, h2.1.symm⟩
+
+def trStd (c : Char) : Char := if c == '-' then '+' else if c == '_' then '/' else c
+
+theorem trStd_inj {c c' : Char} (hc : isUrlSafeChar c = true) (hc' : isUrlSafeChar c' = true) (h : trStd c = trStd c') : c = c' := by
+  unfold trStd at h
+  by_cases h1 : c = '-'
+  · subst h1
+    by_cases h2 : c' = '-'
+    · exact h2.symm
+    · by_cases h3 : c' = '_'
+      · subst h3; simp at h
+      · simp [h2, h3] at h; subst h; simp [isUrlSafeChar] at hc'
+  · by_cases h1' : c = '_'
+    · subst h1'
+      by_cases h2 : c' = '-'
+      · subst h2; simp at h
+      · by_cases h3 : c' = '_'
+        · exact h3.symm
+        · simp [h2, h3] at h; subst h; simp [isUrlSafeChar] at hc'
+    · by_cases h2 : c' = '-'
+      · subst h2; simp [h1, h1'] at h; subst h; simp [isUrlSafeChar] at hc
+      · by_cases h3 : c' = '_'
+        · subst h3; simp [h1, h1'] at h; subst h; simp [isUrlSafeChar] at hc
+        · simpa [h1, h1', h2, h3] using h
+
+theorem trStd_ne_pad {c : Char} (hc : isUrlSafeChar c = true) : trStd c ≠ '=' := by
+  unfold trStd
+  intro h
+  by_cases h1 : c = '-'
+  · subst h1; simp at h
+  · by_cases h2 : c = '_'
+    · subst h2; simp at h
+    · simp [h1, h2] at h; subst h; simp [isUrlSafeChar] at hc
+
+theorem map_trStd_inj : ∀ {l l' : List Char}, (∀ c ∈ l, isUrlSafeChar c = true) → (∀ c ∈ l', isUrlSafeChar c = true) →
+    l.map trStd = l'.map trStd → l = l'
+  | [], [], _, _, _ => rfl
+  | [], _ :: _, _, _, h => by simp at h
+  | _ :: _, [], _, _, h => by simp at h
+  | a :: l, a' :: l', hl, hl', h => by
+    simp only [List.map_cons, List.cons.injEq] at h
+    have := trStd_inj (hl a List.mem_cons_self) (hl' a' List.mem_cons_self) h.1
+    subst this
+    rw [map_trStd_inj (fun c hc => hl c (List.mem_cons_of_mem _ hc)) (fun c hc => hl' c (List.mem_cons_of_mem _ hc)) h.2]
+
+theorem strip_pad : ∀ {e e' : List Char} {k k' : Nat}, '=' ∉ e → '=' ∉ e' →
+    e ++ List.replicate k '=' = e' ++ List.replicate k' '=' → e = e'
+  | [], [], _, _, _, _, _ => rfl
+  | [], a :: e', k, k', _, h', h => by
+    cases k with
+    | zero => simp at h
+    | succ k =>
+      simp only [List.nil_append, List.replicate_succ, List.cons_append, List.cons.injEq] at h
+      exact absurd (h.1 ▸ List.mem_cons_self) h'
+  | a :: e, [], k, k', h0, _, h => by
+    cases k' with
+    | zero => simp at h
+    | succ k' =>
+      simp only [List.nil_append, List.replicate_succ, List.cons_append, List.cons.injEq] at h
+      exact absurd (h.1 ▸ List.mem_cons_self) h0
+  | a :: e, a' :: e', k, k', h0, h0', h => by
+    simp only [List.cons_append, List.cons.injEq] at h
+    obtain ⟨ha, ht⟩ := h
+    subst ha
+    rw [strip_pad (fun hm => h0 (List.mem_cons_of_mem _ hm)) (fun hm => h0' (List.mem_cons_of_mem _ hm)) ht]
+
+theorem b64Std_injective {b b' : Bytes} (h : b64Std b = b64Std b') : b = b' := by
+  unfold b64Std at h
+  have hu := C14.alphabet b
+  have hu' := C14.alphabet b'
+  have hm : ∀ (x : Bytes), (Base64.encode x).map (fun c => if c == '-' then '+' else if c == '_' then '/' else c)
+      = (Base64.encode x).map trStd := fun x => rfl
+  simp only [hm] at h
+  have np : ∀ x : Bytes, '=' ∉ (Base64.encode x).map trStd := by
+    intro x hx
+    obtain ⟨c, hc, hce⟩ := List.mem_map.mp hx
+    exact trStd_ne_pad (C14.alphabet x c hc) hce
+  have := strip_pad (np b) (np b') h
+  exact C14.injective b b' (map_trStd_inj hu hu' this)
+
+/-- android-safetynet: the JWS payload's nonce pins authenticator data and client data: of two accepted safetynet
+registrations carrying the same `response` member, authenticator data and client data are the same. -/
+theorem bitflip_reg_safetynet {W : World} {c c' : RegCred} {e : RegExpect} {r r' : VerifiedReg} {ao ao' : AttObj}
+    (h : runM W (verifyReg c e) = .ok r) (h' : runM W (verifyReg c' e) = .ok r')
+    (hf : r.fmt = "android-safetynet") (hf' : r'.fmt = "android-safetynet")
+    (hao : parseAttObj c.attestationObject = .ok ao) (hao' : parseAttObj c'.attestationObject = .ok ao')
+    (hresp : ao'.attStmt.response = ao.attStmt.response)
+    (hlen : HashLen32 W) (hcol0 : NoCollision W c.clientDataJSON c'.clientDataJSON)
+    (hcol : ∀ m m', NoCollision W m m') :
+    ao'.authDataRaw = ao.authDataRaw ∧ c'.clientDataJSON = c.clientDataJSON := by
+  obtain ⟨ao1, att, roots, hao1, _, _, _, _, _, _, _, _, _, _, hsn⟩ := (registration h).rules
+  obtain ⟨ao2, att', roots', hao2, _, _, _, _, _, _, _, _, _, _, hsn'⟩ := (registration h').rules
+  rw [hao] at hao1; cases hao1
+  rw [hao'] at hao2; cases hao2
+  obtain ⟨ad, resp, jws, parts, hb, header, pb, payload, _, _, _, _, _, hraw, hr, hj, hp, _, _, hpb, hpl, ⟨n, hn, hnl⟩, _⟩ :=
+    (hsn hf).rules
+  obtain ⟨ad', resp', jws', parts', hb', header', pb', payload', _, _, _, _, _, hraw', hr', hj', hp', _, _, hpb', hpl',
+    ⟨n', hn', hnl'⟩, _⟩ := (hsn' hf').rules
+  rw [hresp, hr] at hr'
+  have : resp' = resp := by cases hr'; rfl
+  subst this
+  rw [hj] at hj'; cases hj'
+  rw [hp] at hp'; cases hp'
+  rw [hpb] at hpb'; cases hpb'
+  rw [hpl] at hpl'
+  have : payload' = payload := by cases hpl'; rfl
+  subst this
+  rw [hn] at hn'
+  have : n' = n := by cases hn'; rfl
+  subst this
+  rw [hnl] at hnl'
+  have hH := b64Std_injective hnl'
+  have hdata := hcol _ _ hH
+  obtain ⟨had, hhash⟩ := append_inj_right_len hdata (by rw [hlen, hlen])
+  exact ⟨by rw [hraw, hraw', had], (hcol0 hhash).symm⟩
 
 end Webauthn.Props.C06
